@@ -801,7 +801,7 @@ func marshalProto(i interface{}) ([]byte, error) {
 		}
 		out.Link[i] = in.Link[i].(string)
 	}
-	return proto.Marshal(&out)
+	return verifMarshal(&out)
 }
 
 func unmarshalProto(inBytes []byte, outi interface{}) error {
